@@ -184,6 +184,9 @@ def run(ck):
     record_framing(ck, S, "C07-O5")
     wr = [n for n in S.io_send.calls() if name_is(n.get("callee"), ("QIODevice::write", "QIODevice::putChar"))]
     ck.ob("C07-O3", sitestr(S.io_send), len(wr) == 1, "a record is one write (never split across a rotation)" if len(wr) == 1 else "a record is written in %d pieces" % len(wr), key="IODeviceSink::send|split-record")
+    ck.rule("C07-O6", "a size of the active file read before a rotation is not used after it (the daily check may rotate before the size check runs)")
+    from rules.rfs import stale_size
+    stale_size(ck, S, "C07-O6")
 
 
 def counter_protocol(ck, S, fld):
